@@ -490,6 +490,20 @@ func (c *mctx) gen(depth int) *mval {
 		}
 		m.goVal = mp
 		return m
+	case depth < 3 && x < 63:
+		// a struct of a registrable type, by value or behind a pointer (the registry matches
+		// exact types: *T is looked up as T only when the pointee is printed)
+		sa, ib := []string{"ra", "r‹b", ""}[r.Intn(3)], r.Intn(50)
+		la := &mval{k: mLeaf, goVal: sa}
+		la.id = c.newLeaf(sa)
+		lb := &mval{k: mLeaf, goVal: ib}
+		lb.id = c.newLeaf(ib)
+		in := RegStruct{sa, ib}
+		m := &mval{k: mStruct, kids: []*mval{la, lb}, names: []string{"A:1:0", "B:1:0"}, goVal: in}
+		if r.Chance(50) {
+			return &mval{k: mPtr, kids: []*mval{m}, goVal: &in}
+		}
+		return m
 	case depth < 3 && x < 68:
 		a, b := c.genSlotVal(depth+1), c.genSlotVal(depth+1)
 		in := mInner{A: a.goVal, b: b.goVal}
@@ -817,7 +831,7 @@ func printerModelCase(r *Rng, route string, emit func(Case)) {
 	}
 	format := ""
 	if route != "sprint" {
-		format = genMFormat(r, n, route == "errorf")
+		format = genMFormat(r, n, route == "errorf" || r.Chance(30))
 		if excludedDirective(strings.ReplaceAll(format, "w", "v")) {
 			format = "%v"
 		}
